@@ -188,8 +188,19 @@ impl Check for Determinism {
                 use crate::generators::task::{self as gt, Chooser};
                 let mut c = Chooser::new(choices.clone());
                 let names = if c.flag(1, 2) { gt::Names::tricky(&mut c) } else { gt::Names::clean(&mut c) };
-                let task = gt::external_task_with(&mut c, names);
+                let mut task = gt::external_task_with(&mut c, names);
                 let flags = gt::flags(&mut c);
+                // half of the tasks get two more annotated formulas of roles a user guide ignores,
+                // each with a warning of its own on stdout: the order of warnings must not vary either
+                if c.aux(41, 2) == 1 {
+                    let i = task.names.inputs[0].clone();
+                    for (k, role) in [fol::Role::Lemma, fol::Role::Spec, fol::Role::InductiveLemma].into_iter().enumerate().take(2 + c.aux(42, 2)) {
+                        let text = if i.1 == 0 { format!("{} or not {}", i.0, i.0) } else { format!("forall X ({}(X) -> {}(X) or X = {k})", i.0, i.0) };
+                        if let Ok(f) = text.parse::<fol::Formula>() {
+                            task.user_guide.entries.push(fol::UserGuideEntry::AnnotatedFormula(gt::annotated(role, fol::Direction::Universal, "", f)));
+                        }
+                    }
+                }
                 let dir = cli::scratch_dir("c18x");
                 let mut files: Vec<String> = vec![];
                 match (&task.left_program, &task.left_spec) {
@@ -208,6 +219,7 @@ impl Check for Determinism {
                 std::fs::write(dir.join("u.ug"), safe_print::user_guide(&task.user_guide, &Style::plain())).unwrap();
                 files.push(dir.join("u.ug").to_string_lossy().to_string());
                 let mut snapshots = vec![];
+                let mut streams: Vec<(String, String)> = vec![];
                 for i in 0..3 {
                     let out = dir.join(format!("out{i}"));
                     std::fs::create_dir_all(&out).unwrap();
@@ -236,6 +248,8 @@ impl Check for Determinism {
                     args.extend(files.iter().cloned());
                     let argv: Vec<&str> = args.iter().map(|s| s.as_str()).collect();
                     let r = cli::run(&bin, &argv, None);
+                    let outs = out.to_string_lossy().to_string();
+                    streams.push((r.stdout.replace(&outs, "OUT"), r.stderr.replace(&outs, "OUT")));
                     snapshots.push((r.code, cli::snapshot_dir(&out)));
                 }
                 let _ = std::fs::remove_dir_all(&dir);
@@ -244,6 +258,15 @@ impl Check for Determinism {
                     return Outcome::fail(
                         "nondeterministic-problems",
                         format!("C18: verify --equivalence external wrote different files in separate processes\n{description}\n  flags: {}", flags.describe()),
+                    );
+                }
+                if let Some(other) = streams.iter().find(|s| **s != streams[0]) {
+                    return Outcome::fail(
+                        "nondeterministic-messages",
+                        format!(
+                            "C18: verify --equivalence external printed different messages in separate processes\n--- run 1 stdout ---\n{}\n--- another run ---\n{}\n--- stderr 1 ---\n{}\n--- stderr other ---\n{}\n{description}\n  flags: {}",
+                            streams[0].0, other.0, streams[0].1, other.1, flags.describe()
+                        ),
                     );
                 }
                 // the library path (hooks) must produce the same files as the command line
@@ -326,6 +349,7 @@ impl Check for Determinism {
                 std::fs::write(&pa, safe_print::asp_program(a, &Style::plain())).unwrap();
                 std::fs::write(&pb, safe_print::asp_program(b, &Style::plain())).unwrap();
                 let mut snapshots = vec![];
+                let mut streams: Vec<(String, String)> = vec![];
                 for i in 0..3 {
                     let out = dir.join(format!("out{i}"));
                     std::fs::create_dir_all(&out).unwrap();
@@ -342,6 +366,8 @@ impl Check for Determinism {
                     args.push(pb.to_string_lossy().to_string());
                     let argv: Vec<&str> = args.iter().map(|s| s.as_str()).collect();
                     let r = cli::run(&bin, &argv, None);
+                    let outs = out.to_string_lossy().to_string();
+                    streams.push((r.stdout.replace(&outs, "OUT"), r.stderr.replace(&outs, "OUT")));
                     snapshots.push((r.code, cli::snapshot_dir(&out)));
                 }
                 let _ = std::fs::remove_dir_all(&dir);
